@@ -77,7 +77,7 @@ impl<R: Read + Seek> ReadBox<&mut R> for MoovBox {
             // Get box header.
             let header = BoxHeader::read(reader)?;
             let BoxHeader { name, size: s } = header;
-            if s > size {
+            if s > size || s < HEADER_SIZE {
                 return Err(Error::InvalidData(
                     "moov box contains a box with a larger size than it",
                 ));
